@@ -127,7 +127,13 @@ func RenderSel(s *Sel, style string) (string, error) {
 			}
 			b.WriteString("[" + q + "]")
 		default:
-			b.WriteString("[" + strconv.Quote(p) + "]")
+			q, err := Quote(p, "dq")
+			if err != nil {
+				if q, err = Quote(p, "raw"); err != nil {
+					return "", err
+				}
+			}
+			b.WriteString("[" + q + "]")
 		}
 	}
 	return b.String(), nil
